@@ -225,6 +225,55 @@ def run_sub(sub, prop, tier, seed, shard, nshards, rec, budget, only_kind_limit=
     return out
 
 
+def run_fuzz(mod, seed, shard, nshards, rec, res):
+    """Thorough tier: one atheris (libFuzzer) campaign per fuzz target and shard, each in its own process with its own
+    corpus directory; the semantic oracle runs inside the target (vlib/fuzz.py)."""
+    out = []
+    targets = sorted(mod.FUZZ)
+    runs_total = getattr(mod, "FUZZ_RUNS", 160000)
+    for ti, target in enumerate(targets):
+        work = os.path.join(out_dir(), ".work", mod.PROPERTY)
+        stats = os.path.join(work, f"fuzz_{target}_{shard}.json")
+        corpus = os.path.join(work, f"corpus_{target}_{shard}")
+        import shutil
+        shutil.rmtree(corpus, ignore_errors=True)
+        if shard % 2 == 1 and hasattr(mod, "fuzz_seed_corpus"):
+            # odd shards start from a few small valid inputs, even shards from an empty corpus
+            os.makedirs(corpus, exist_ok=True)
+            for i, blob in enumerate(mod.fuzz_seed_corpus(target)):
+                with open(os.path.join(corpus, f"seed{i}"), "wb") as f:
+                    f.write(blob)
+        cmd = [sys.executable, "-m", "vlib.fuzz", mod.PROPERTY, target, "--runs", str(max(1000, runs_total // nshards)),
+               "--seed", str(derive_seed(seed, mod.PROPERTY, target, shard) % (2 ** 31 - 1) + 1), "--out", stats, "--corpus", corpus]
+        ts = time.time()
+        try:
+            subprocess.run(cmd, cwd=boot.VERIF, stdout=subprocess.DEVNULL, stderr=subprocess.DEVNULL, timeout=1500,
+                           env=dict(os.environ, PYTHONHASHSEED="0"))
+        except subprocess.TimeoutExpired:
+            rec.skipped_budget += 1
+        shutil.rmtree(corpus, ignore_errors=True)
+        if not os.path.exists(stats):
+            res["errors"].append(f"fuzz target {target}: no statistics written")
+            continue
+        with open(stats) as f:
+            st = json.load(f)
+        name = f"fuzz:{target}"
+        rec.evaluations += st["evaluations"]
+        rec.hashes.update(st["hashes"])
+        rec.classes.update(st["classes"])
+        for smp in st["samples"][:1]:
+            rec.samples.append(smp)
+        ps = rec.per_sub.setdefault(name, {"evaluations": 0, "nontrivial": 0})
+        ps["evaluations"] += st["evaluations"]
+        ps["nontrivial"] += sum(v.get("nontrivial", 0) for v in st.get("per_sub", {}).values())
+        ps["executions"] = st.get("executions", 0)
+        ps["wall_s"] = round(time.time() - ts, 2)
+        if st.get("violation"):
+            v = st["violation"]
+            out.append({"sub": v["sub"], "kind": v["kind"], "message": v["message"] + f" [found by {v['via']}]", "case": v["case"]})
+    return out
+
+
 def shard_main(mod, tier, seed, shard, nshards, outpath, wall):
     boot.ensure_deps()
     rec = Recorder()
@@ -256,6 +305,8 @@ def shard_main(mod, tier, seed, shard, nshards, outpath, wall):
             ts = time.time()
             res["violations"].extend(run_sub(sub, mod.PROPERTY, tier, seed, shard, nshards, rec, budget))
             rec.per_sub.setdefault(sub.name, {"evaluations": 0, "nontrivial": 0})["wall_s"] = round(time.time() - ts, 2)
+        if tier == "thorough" and hasattr(mod, "FUZZ"):
+            res["violations"].extend(run_fuzz(mod, seed, shard, nshards, rec, res))
     except BaseException:
         res["errors"].append(traceback.format_exc())
     res.update(evaluations=rec.evaluations, hashes=sorted(rec.hashes), classes=dict(rec.classes),
